@@ -10,7 +10,7 @@ EXPLANATION = ('Decides from MIR: (R12.1) collision taint: joint vectors obtaine
                'element of the first half and recursion is bounded by linear_recursion_depth; (R12.5) LAND first / PARK last with the caller\'s '
                'poses, TRACE poses from steps, interpolated poses flagged LIN_INTERP with one fraction for translation and rotation; '
                '(R12.6) the stop flag is raised only after a successful probe and otherwise only loaded.  Linearity of waypoints and the '
-               'sufficiency of the check step are numerical and not decided.  (R11.5) `collides` of the robot with shape is the query of its body, unchanged.  The strategies are inverse_continuing(land, from) of the caller (R12.2), the candidates of a transition inverse_continuing(to.pose, starting) and the acceptance limit the configured max_transition_cost as it is (R12.4).')
+               'sufficiency of the check step are numerical and not decided.  (R11.5) `collides` of the robot with shape is the query of its body, unchanged.  The strategies are inverse_continuing(land, from) of the caller (R12.2), the candidates of a transition inverse_continuing(to.pose, starting) and the acceptance limit the configured max_transition_cost as it is (R12.4).  (R12.7) the flags the planner assigns are distinct single bits.  (R12.8) the strategy probe is interpreted as a whole with its collaborators scripted (relocation planner, linear transition, inverse, collision query): onboarding without its last point, the strategy point once as LAND, every transition continued from the last waypoint pushed, the documented flags, a gap closed towards the target pose, failure on a colliding waypoint, interpolated waypoints dropped exactly when not requested.')
 NOT_DECIDED = 'that waypoints lie on the straight segment and reproduce the poses (lerp/slerp + IK numerics); sufficiency of the check step'
 ASSUMPTIONS = ['KinematicsWithShape inverse methods and plan_rrt return only configurations reported collision-free (C11, C13)']
 
@@ -418,7 +418,8 @@ def run(ctx):
     ctx.check(ok, 'R12.4', 'bisection', step.where(rec[0][0]) if rec else step.where(0), step.path, 'bisection must be depth-bounded and chained: ' + msg, detail=msg)
 
     _poses(ctx, prog)
-    _flags(ctx, prog, probe, step)
+    probed = _probe_by_interpretation(ctx, prog, probe, step)
+    _flags(ctx, prog, probe, step, probed)
     _stop_flag(ctx, prog, plan, probe, plan_cl)
 
 
@@ -859,7 +860,7 @@ def _last_element_test(g, truth):
     return None
 
 
-def _flags(ctx, prog, probe, step):
+def _flags(ctx, prog, probe, step, probed=False):
     """R12.5b: waypoint flags in the strategy probe"""
     pushes = [(bi, t) for bi, t in probe.calls() if cname(callee_name(t)) == 'Vec::push']
     seen = {}
@@ -908,7 +909,9 @@ def _flags(ctx, prog, probe, step):
                 okv = (v == 'LAND' and cls.startswith('param:')) or (v == 'ONBOARDING' and cls == 'trusted')
                 ctx.check(okv, 'R12.5', 'flags/' + v.lower(), probe.where(bi), probe.path, '%s must flag %s' % (v, 'the strategy point' if v == 'LAND' else 'the relocation waypoints'), found='%s on %s' % (v, cls))
                 seen[v] = True
-    ctx.check(seen.get('ext') and seen.get('LAND'), 'R12.5', 'flags/sites', probe.where(0), probe.path, 'flag assignment sites not found (Cartesian extension, LAND)', found=str(sorted(seen)))
+    # (when the probe was interpreted as a whole - R12.8 - the flags of every waypoint it pushes have been compared already;
+    #  the sites need not be in the shape read here)
+    ctx.check((seen.get('ext') and seen.get('LAND')) or probed, 'R12.5', 'flags/sites', probe.where(0), probe.path, 'flag assignment sites not found (Cartesian extension, LAND)', found=str(sorted(seen)))
 
 
 ATOMIC_WRITES = ('store', 'swap', 'fetch_or', 'fetch_and', 'fetch_xor', 'fetch_nand', 'fetch_update', 'compare_exchange', 'compare_exchange_weak', 'compare_and_swap')
@@ -981,3 +984,169 @@ def _flag_constants(ctx, prog):
         want = vals['LIN_INTERP'] | vals['LAND'] | vals['PARK'] if single else None
         ctx.check(vals['CARTESIAN'] == want, 'R12.7', 'cartesian-mask', 'src/path_plan/cartesian.rs', 'cartesian::PathFlags',
                   'CARTESIAN must be LIN_INTERP | LAND | PARK', found=str(vals.get('CARTESIAN')), expected=str(want))
+
+
+class _Flags(frozenset):
+    def __repr__(self):
+        return 'flags{%s}' % ','.join(sorted(self))
+
+
+FLAG_NAMES = ('ONBOARDING', 'TRACE', 'LIN_INTERP', 'LAND', 'LANDING', 'PARK', 'PARKING', 'FORWARDS', 'BACKWARDS', 'ALTERED', 'ORIGINAL', 'DEBUG')
+
+
+def _probe_by_interpretation(ctx, prog, probe, step):
+    """R12.8: what the strategy probe assembles, decided by interpreting it with its collaborators scripted: the relocation
+    planner returns [r1, r2, target], each linear transition returns three joint vectors (or fails, and the gap is then closed by
+    a relocation to a solution of the target pose), nothing collides (or one chosen waypoint does).  The trace must be: the
+    relocation without its last point as ONBOARDING, the strategy point once as LAND, then for every pair of poses the vectors
+    of its transition - each transition continued from the last vector pushed - flagged (to | LIN_INTERP) & !(TRACE | PARK)
+    except the last, which carries the target's flags; one colliding waypoint fails the probe; interpolated waypoints are
+    dropped exactly when they were not asked for."""
+    from .. import absint
+    from ..absint import Interp, Sym, Iv
+    ctx.rule('R12.8', 'the strategy probe, interpreted with scripted collaborators, returns onboarding + LAND + the transitions continued from one another with the documented flags; a colliding waypoint fails it; LIN_INTERP waypoints are dropped iff not requested')
+    adt = [a for a in prog.adts if a.startswith('cartesian::Cartesian')]
+    if len(adt) != 1:
+        return
+    cfields = [f['name'] for f in prog.adts[adt[0]]['variants'][0]['fields']]
+    ALL = _Flags(FLAG_NAMES)
+
+    def fl(x):
+        if isinstance(x, _Flags):
+            return x
+        if isinstance(x, Sym) and isinstance(x.tag, tuple) and x.tag[0] == 'const' and '::PathFlags::' in x.tag[1]:
+            nm = x.tag[1].split('::')[-1]
+            if nm == 'CARTESIAN':
+                return _Flags({'LIN_INTERP', 'LAND', 'PARK'})
+            return _Flags() if nm == 'NONE' else _Flags({nm})
+        raise absint.Unsupported('flags value %r' % (x,))
+
+    def run(include, fail_pair=None, collide=None, gap_fails=False):
+        log = {'rrt': [], 'step': [], 'ik': [], 'collides': []}
+        counter = [0]
+
+        def val(I, st, a):
+            while isinstance(a, tuple) and a and a[0] in ('ref', 'refval', 'mref'):
+                a = I.deref(a, st)
+            return a
+
+        def h_rrt(I, st, a, t, b):
+            s0, g0 = val(I, st, a[1]), val(I, st, a[2])
+            log['rrt'].append((s0, g0))
+            if gap_fails and len(log['rrt']) > 1:
+                return ('enum', 1, (Sym('rrt-failed'),))
+            k = len(log['rrt'])
+            return ('enum', 0, ((Sym('r%d.1' % k), Sym('r%d.2' % k), g0),))
+
+        def h_step(I, st, a, t, b):
+            prev, frm, to = val(I, st, a[1]), val(I, st, a[2]), val(I, st, a[3])
+            log['step'].append((prev, frm, to))
+            k = len(log['step'])
+            if fail_pair == k:
+                return ('enum', 1, (Sym(('transition', k)),))
+            return ('enum', 0, ((Sym('x%d.1' % k), Sym('x%d.2' % k), Sym('x%d.3' % k)),))
+
+        def h_ik(I, st, a, t, b):
+            log['ik'].append((val(I, st, a[1]), val(I, st, a[2])))
+            return (Sym('ik1'), Sym('ik2'))
+
+        def h_collides(I, st, a, t, b):
+            j = val(I, st, a[1])
+            log['collides'].append(j)
+            return j == collide
+
+        def h_false(I, st, a, t, b):
+            return False
+
+        def h_unit(I, st, a, t, b):
+            return ()
+        H = {'RRTPlanner::plan_rrt': h_rrt, cname(step.path): h_step, step.path: h_step, 'Kinematics::inverse_continuing': h_ik,
+             'KinematicsWithShape::collides': h_collides, 'Atomic::load': h_false, 'AtomicBool::load': h_false,
+             'Cartesian::log_failed_transition': h_unit,
+             'BitOr::bitor': lambda I, st, a, t, b: _Flags(fl(val(I, st, a[0])) | fl(val(I, st, a[1]))),
+             'BitAnd::bitand': lambda I, st, a, t, b: _Flags(fl(val(I, st, a[0])) & fl(val(I, st, a[1]))),
+             'Not::not': lambda I, st, a, t, b: _Flags(ALL - fl(val(I, st, a[0]))),
+             'Sub::sub': lambda I, st, a, t, b: _Flags(fl(val(I, st, a[0])) - fl(val(I, st, a[1]))),
+             'PathFlags::contains': lambda I, st, a, t, b: fl(val(I, st, a[1])) <= fl(val(I, st, a[0])),
+             'PathFlags::intersects': lambda I, st, a, t, b: bool(fl(val(I, st, a[1])) & fl(val(I, st, a[0]))),
+             'IntoParallelRefIterator::par_iter': absint.h_iter, 'ParallelIterator::any': absint.h_iter_any,
+             'ParallelIterator::all': absint.h_iter_all, 'ParallelIterator::find_any': absint.h_iter_find}
+        me = {'#adt': adt[0]}
+        for f in cfields:
+            me[f] = Sym(('self', f))
+        me['include_linear_interpolation'] = include
+        me['debug'] = False
+        AP = 'cartesian::AnnotatedPose'
+        poses = tuple({'#adt': AP, 'pose': Sym('P%d' % k), 'flags': _Flags(f)} for k, f in enumerate((['LAND'], ['LIN_INTERP'], ['TRACE'], ['LIN_INTERP'], ['PARK'])))
+        I = Interp(prog, H, fuel=400000, max_paths=16)
+        I.symbolic, I.oracle = True, (lambda o, x, y: None)
+        outs = I.run(probe.path, [('refval', me, ()), ('refval', Sym('start'), ()), ('refval', Sym('strategy'), ()), ('refval', poses, ()), ('refval', Sym('stop'), ())])
+        if len(outs) != 1:
+            raise absint.Undecided('the probe forks')
+        return outs[0].ret, log, poses
+
+    def shown(tr):
+        return [(repr(x.get('joints')), sorted(fl(x.get('flags')))) if isinstance(x, dict) else repr(x) for x in tr]
+
+    def expected(poses, include, fail_pair=None):
+        tr = [('r1.1', {'ONBOARDING'}), ('r1.2', {'ONBOARDING'}), ('strategy', {'LAND'})]
+        nr = 1
+        for k in range(1, len(poses)):
+            to = set(poses[k]['flags'])
+            if fail_pair == k:
+                nr += 1
+                for nm in ('r%d.1' % nr, 'r%d.2' % nr, 'ik1'):
+                    tr.append((nm, to - {'LIN_INTERP'}))
+                continue
+            mid = (to | {'LIN_INTERP'}) - {'TRACE', 'PARK'}
+            tr += [('x%d.1' % k, mid), ('x%d.2' % k, mid), ('x%d.3' % k, to)]
+        if not include:
+            tr = [x for x in tr if 'LIN_INTERP' not in x[1]]
+        return [("sym'%s'" % n, sorted(f)) for n, f in tr]
+    try:
+        results = {}
+        for include in (True, False):
+            results[('plain', include)] = run(include)
+        results[('gap', True)] = run(True, fail_pair=2)
+        results[('gap-fails', True)] = run(True, fail_pair=2, gap_fails=True)
+        results[('collision', True)] = run(True, collide=Sym('x3.2'))
+    except (absint.Unsupported, absint.Undecided, KeyError, TypeError, AttributeError, IndexError) as e:
+        ctx.extra['probe_interpretation'] = 'not interpreted: %s: %s' % (type(e).__name__, str(e)[:120])
+        return False
+    where = probe.where(0)
+    n_before = len(ctx.violations)
+    for (kind, include), (ret, log, poses) in results.items():
+        key = '%s/%s' % (kind, 'with-interpolated' if include else 'without-interpolated')
+        if kind in ('gap-fails', 'collision'):
+            ok = isinstance(ret, tuple) and ret and ret[0] == 'enum' and ret[1] == 1
+            ctx.check(ok, 'R12.8', key, where, probe.path,
+                      'the probe must fail when %s' % ('a gap cannot be closed' if kind == 'gap-fails' else 'one waypoint of the assembled trace collides'),
+                      found=repr(ret)[:160])
+            continue
+        fp = 2 if kind == 'gap' else None
+        want = expected(poses, include, fp)
+        got = shown(ret[2][0]) if isinstance(ret, tuple) and ret and ret[0] == 'enum' and ret[1] == 0 and ret[2] else None
+        ctx.check(got == want, 'R12.8', key, where, probe.path,
+                  'the assembled trace differs from the documented one at %s' % (
+                      next((i for i in range(max(len(got or []), len(want))) if i >= len(got or []) or i >= len(want) or (got or [])[i] != want[i]), '?')),
+                  found=str(got)[:400], expected=str(want)[:400])
+        # each transition continues from the last vector pushed; a gap is closed towards the target pose, from there
+        prevs = [repr(x[0]) for x in log['step']]
+        wantp = ["sym'strategy'"]
+        for k in range(1, len(poses) - 1):
+            wantp.append("sym'%s'" % ('ik1' if fp == k else 'x%d.3' % k))
+        ctx.check(prevs == wantp, 'R12.8', key + '/continued-from', where, probe.path,
+                  'every transition must start from the joints of the waypoint pushed last', found=str(prevs), expected=str(wantp))
+        ctx.check([(repr(a), repr(b_)) for a, b_ in log['rrt'][:1]] == [("sym'start'", "sym'strategy'")], 'R12.8', key + '/onboarding', where, probe.path,
+                  'the onboarding relocation must lead from the start configuration to the strategy point', found=str(log['rrt'][:1]))
+        if fp is not None:
+            okg = [(repr(a), repr(b_)) for a, b_ in log['ik']] == [("sym'P%d'" % fp, "sym'x%d.3'" % (fp - 1))] and \
+                [(repr(a), repr(b_)) for a, b_ in log['rrt'][1:]] == [("sym'x%d.3'" % (fp - 1), "sym'ik1'")]
+            ctx.check(okg, 'R12.8', key + '/gap', where, probe.path,
+                      'a failed transition must be closed by a relocation from the last waypoint to a solution of the TARGET pose continued from that waypoint',
+                      found='ik %s rrt %s' % (log['ik'], log['rrt'][1:]))
+        if kind == 'plain' and include:
+            swept = [repr(x) for x in log['collides']]
+            ctx.check(sorted(swept) == sorted(n for n, f in expected(poses, True)), 'R12.8', key + '/sweep', where, probe.path,
+                      'every waypoint of the assembled trace must be checked for collisions', found=str(swept)[:300])
+    return len(ctx.violations) == n_before
